@@ -278,6 +278,13 @@ def sortM (env : Env) : Nat → Mode → List Str → Nat → M Res
     | .mkqs => mkqsBody env (sortM env fuel) strs depth
     | .inscache => insCacheBody strs depth
 
+/-- the characters (and terminators) of a range behind a common prefix of length `d` -/
+def msize (strs : List Str) (d : Nat) : Nat := (strs.map (fun s => s.length + 1 - d)).sum
+
+/-- fuel that suffices for a whole sort (`Props/C04.sortAll_terminates`): three units per character
+and per string, plus three -/
+def fuelFor (strs : List Str) : Nat := 3 * msize strs 0 + 3
+
 /-- `parallel_sample_sort_base`: `ctx.enqueue(nullptr, strptr, 0)` -/
 def sortAll (env : Env) (fuel : Nat) (strs : List Str) : M Res := sortM env fuel .enq strs 0
 
